@@ -26,11 +26,11 @@ func raceLogPath() string {
 }
 
 type raceReport struct {
-	SiteA, SiteB string
+	SiteA, SiteB   string
 	StackA, StackB []string
-	InScope bool
-	Why     string
-	Text    string
+	InScope        bool
+	Why            string
+	Text           string
 }
 
 var reRaceFrame = regexp.MustCompile(`^  ([^\s].*)\(\)$`)
